@@ -201,10 +201,11 @@ def matrix(ctx, reps=None):
     exp = {(k, e): pred[n0 + k * len(MX_POLS) + e] == 'SOME' for k in range(len(MX_KEYS)) for e in range(len(MX_POLS))}
     reps = reps or (8 if ctx.quick() else 60)
     d = Demd(); out = d.ask(f'MATRIX {reps}'); d.close()
-    bad = []; n = 0; nz = 0
+    bad = []; n = 0; nz = 0; nc = 0
     for it in out.split(';'):
         f = it.split(' ')
         if f[0] == 'MXZ': nz += 1; continue
+        if f[0] == 'MXC': nc += 1; continue
         if f[0] == 'MXT':
             got = 'a PANIC on' if f[4:5] == ['PANIC'] else 'a secret / plaintext from'
             bad.append((f[3], MX_KEYS[int(f[1])], MX_POLS[int(f[2])], 0, got + ' a ciphertext whose encapsulation was altered', 'an error or "not authorized"')); continue
@@ -214,10 +215,12 @@ def matrix(ctx, reps=None):
             want = 'OK' if exp[(k, e)] else 'NONE'
             if got != want: bad.append((layer, MX_KEYS[k], MX_POLS[e], int(f[3]), got, want))
     ctx.evaluations += n
-    ctx.ob('correspondence', f'PKE / header matrix: 6 keys x 6 policies (single, classic multi-target, hybridized multi-target, mixed, conjunctions) x {reps} trials x 2 layers = {n} decryptions: authorized keys get exactly the plaintext / metadata / secret, the others "not authorized"; {nz} encapsulations cut to zero shares opened by 6 keys x 3 layers: an error or "not authorized", never a panic', not bad and n > 0, str(bad[:3]))
+    ctx.ob('correspondence', f'PKE / header matrix: 6 keys x 6 policies (single, classic multi-target, hybridized multi-target, mixed, conjunctions) x {reps} trials x 2 layers = {n} decryptions: authorized keys get exactly the plaintext / metadata / secret, the others "not authorized"; {nz} encapsulations cut to zero shares opened by 6 keys x 3 layers, {nc} encapsulations / headers with a count field set to a boundary value (up to 2^64-1) read and opened: an error or "not authorized", never a panic', not bad and n > 0, str(bad[:3]))
     if bad or n == 0:
         layer, k, e, rep, got, want = bad[0] if bad else ('-', '-', '-', 0, out[:80], 'a matrix')
-        vf.violation(ctx, f'{layer} layer: key "{k}" on a ciphertext for "{e}" (trial {rep}): {got}, expected {want}', {'matrix': True, 'key_policy': k, 'encryption_policy': e, 'layer': layer, 'got': got, 'expected': want, 'violations_total': len(bad)})
+        what = f'{layer} layer: key "{k}" on a ciphertext for "{e}" (trial {rep}): {got}, expected {want}'
+        if not bad: what = 'the PKE / header matrix run gave no answer: the harness process died (abort on an allocation request, stack overflow, ...) while reading or opening ciphertexts whose encapsulation was altered (count fields set to boundary values, shares cut)'
+        vf.violation(ctx, what, {'matrix': True, 'key_policy': k, 'encryption_policy': e, 'layer': layer, 'got': got, 'expected': want, 'violations_total': len(bad)})
 
 
 def big_metadata(ctx):
